@@ -68,12 +68,12 @@ def case_ops(ops, i):
 def run(ctx, replay_ops=None):
     ctx.overlay()
     ctx.assumptions += [
-        "votes handed to the stateful layer are stateless-compressed votes (StatelessEncoder output): second header byte 0, "
-        "round in canonical msgpack width (hypothesis SVote.WF of stateful_roundtrip_sync; both hold for every output of CompressVote on protocol.Encode'd votes)",
+        "stateful_roundtrip_sync takes well-formed stateless votes (SVote.WF: second header byte 0, round in minimal msgpack width); "
+        "vote_compression_lossless_sync_any discharges that from CompressVote's success (stateless_accepts_only_canonical), so the end-to-end theorem has no assumption on the vote bytes",
         "table size accepted by newLRUTable and ≤ 65536 so that reference ids fit uint16 (msgCompressor negotiates ≤ 2048) (hypothesis WF)",
         "session rule of msgCompressor/wsPeer (compress right before the frame is written, decompress every VP frame in arrival order, first error "
         "switches stateful compression off) is modelled by `session`, read from the code, not extracted",
-        "msgpack vote layout of the stateless theorem is the canonical one (keys in protocol.Encode order); checked against protocol.EncodeMsgp by the tie only",
+        "that Model.Vpack equals the Go code is established by the tie (sampled), not proved; the canonical msgpack layout is compared with protocol.EncodeMsgp through the tie only",
     ]
     proved = ctx.prove(["AlgoVerif.Props.C42"])
     ok, out = ctx.lean_build(["c42"])
